@@ -18,8 +18,19 @@ def payload(n, fill):
     return bytes(((i * 7 + 3) ^ fill) & 0xFF for i in range(n))
 
 
-def frame(framing, count, req, fill=0):
-    pl = payload(2 * count, fill)
+PL0 = dict(rtu=5, tcp=9, aa55=7)       # where the payload starts inside a response frame
+# byte sequences the receive path compares against somewhere: a remainder that happens to begin with one of them is
+# still the remainder (register contents are arbitrary)
+MAGICS = ('aa55', 'aa557f', 'aa55c07f', 'f703', 'f783', '7f03', '0000', 'ffff', 'f7', 'aa')
+
+
+def frame(framing, count, req, fill=0, at=None):
+    pl = bytearray(payload(2 * count, fill))
+    if at:                           # (position inside the FRAME, bytes): only positions inside the payload
+        pos, b = at
+        pl[pos - PL0[framing]:pos - PL0[framing] + len(b)] = b
+        pl = pl[:2 * count]
+    pl = bytes(pl)
     if framing == 'tcp':
         return wire.tcp_read_resp(req[:2], 0xF7, pl)
     if framing == 'rtu':
@@ -81,6 +92,15 @@ def positive_cases(framing, counts, delays):
                 yield ('pos', framing, count, p, d2)
         if framing == 'tcp':
             yield ('pos-coalesced', framing, count, MINH[framing] + 1, 'same')
+    # the remainder begins with a byte sequence the receive path knows (header, unit + function, exception marker ...)
+    for count in [c for c in counts if c in (2, 3, 61)] or counts[:1]:
+        L = len(frame(framing, count, b'\0\0'))
+        for m in MAGICS:
+            mb = bytes.fromhex(m)
+            for p in range(max(MINH[framing], PL0[framing]), L - 2 - len(mb) + 1):
+                if count > 3 and p not in (PL0[framing], PL0[framing] + 1, L // 2, L - 2 - len(mb)):
+                    continue
+                yield ('pos', framing, count, p, '.5T', m)
 
 
 def second_pieces(framing, count, F, p, G):
@@ -106,13 +126,15 @@ def run_case(case, ka, T=1.0):
         d2name = case[4]
         d2 = {'0+': 2 * D0, '.5T': .5 * T, 'T-e': T - e, 'same': D0}[d2name]
 
+        at = (p, bytes.fromhex(case[5])) if len(case) > 5 else None
+
         def plan(k, req, now):
             if k:
                 return []
-            F = frame(framing, count, req)
+            F = frame(framing, count, req, at=at)
             return [(D0, ('data', F[:p])), (d2, ('data', F[p:]))]
         res, sent, reads, unh = execute(framing, count, plan, ka)
-        F = frame(framing, count, sent[0][2])
+        F = frame(framing, count, sent[0][2], at=at)
         if not (res[0] == 'ok' and res[1] == F and len(sent) == 1):
             vio.append(('reassembled-exactly', f'{res[0]} tx={len(sent)}'))
         vio += general_oracle(framing, count, res, sent, reads)
@@ -312,6 +334,8 @@ def job(j):
             sample = dict(framing=framing, ka=ka, case=[c.hex() if isinstance(c, bytes) else c for c in case], outcome=o)
         for clause, cause in v:
             sub = case[4] if case[0] in ('neg',) else (f'{case[4]}/{case[5]}' if case[0] in ('left', 'cross') else case[4])
+            if case[0] == 'pos' and len(case) > 5:
+                sub = f'remainder-begins-with-{case[5]}'
             key = f'{clause}/{framing}/ka={int(ka)}/{case[0]}:{sub}'
             vio.setdefault(key, []).append((clause, case, cause))
     out = []
